@@ -46,6 +46,7 @@ class Module(object):
         self.funcs = {}        # name -> ast.FunctionDef
         self.lines = {}
         self.structs = {}
+        self.included = []    # Module objects of textually included files, in order
 
 
 def _split_params(s):
@@ -118,6 +119,7 @@ def rewrite(path, _depth=0):
             # included text is spliced on ONE logical position; to stay
             # line-preserving for the including file we keep it in a side list
             mod.lines.setdefault('includes', []).append((i + 1, inc, sub.text))
+            mod.included.append(sub)
             out.append('pass' if indent else '')
             i += 1
             continue
@@ -206,7 +208,7 @@ def rewrite(path, _depth=0):
                 # cdef type x = e
                 nm = code.split('=')[0].strip()
                 mod.ctypes.setdefault(cur_func, {})[nm] = ty
-                out.append(m.group(1) + CAST_RE.sub('', code))
+                out.append(m.group(1) + re.sub(r'sizeof\s*\([^)]*\)', 'SIZEOF', CAST_RE.sub('', code)))
                 i += 1
                 continue
             names = [x.strip() for x in code.split(',') if x.strip()]
@@ -227,7 +229,7 @@ def rewrite(path, _depth=0):
             # which is itself a declaration; nothing else to do.
             continue
         # with nogil
-        if re.match(r'^\s*with\s+nogil\s*:', line):
+        if re.match(r'^\s*with\s+(nogil|gil)\s*:', line):
             out.append(' ' * indent + 'if True:')
             i += 1
             continue
